@@ -282,6 +282,12 @@ def project(hist, rng, kinds, gate="send.genid", tagbase=10):
     callers = sorted({h["c"] for h in hist if "c" in h})
     tag = {c: tagbase + i + 1 for i, c in enumerate(callers)}
     kind = {c: rng.choice(kinds) for c in callers}
+    # the model's result kind of each caller, when the behaviour carries one: "vec" -> a vector result, "obj" -> the others
+    for h in hist:
+        if h.get("a") == "Call" and h.get("k") in ("vec", "obj"):
+            pool = [k for k in kinds if k.startswith("vec")] if h["k"] == "vec" else [k for k in kinds if not k.startswith("vec")]
+            if pool and (kind[h["c"]] not in pool):
+                kind[h["c"]] = rng.choice(pool)
     started = set()
     steps = []
     for h in hist:
@@ -297,7 +303,7 @@ def project(hist, rng, kinds, gate="send.genid", tagbase=10):
         elif a == "Answer":
             who = [c for c in h["who"] if c in tag]
             st = {"a": "Answer", "tags": [tag[c] for c in who], "container": len(who) > 1 or rng.random() < 0.15,
-                  "gzip": [rng.random() < 0.3 for _ in who], "n": 250}
+                  "gzip": [bool(h["gz"]) if "gz" in h and h["gz"] else rng.random() < 0.3 for _ in who], "n": 250}
             if h.get("junk"):   # the model's item nobody waits for; which kind and where in the container is free
                 st.update(container=True, junk=rng.choice(JUNK), junkat=rng.choice(["first", "last"]))
             steps.append(st)
